@@ -1,4 +1,4 @@
-import RreModel.C09.Lemmas
+import RreModel.C09.Complete
 /-
 C09 — property theorems for the backward-chaining search model (only; lemmas in Lemmas.lean).
 
@@ -124,11 +124,85 @@ theorem query_eq_fast (kb : List Rule) (strategy : Strategy) (maxDepth maxSol : 
 
 /-! ### bounded completeness (DFS) -/
 
-/-- full statement: on a consistent-Horn knowledge base (conjunctive equality conditions, one
-value per field across rule actions and initial facts, literals that survive the goal-pattern
-round trip), with candidate lists that contain every rule concluding the (sub-)goal's field, a
-goal derivable with sub-goal nesting ≤ `max_depth` (`derivableIn`, the oracle's reference
-computation) is reported provable by the default DFS. -/
+/-- **Bounded completeness of the depth-first search.**  Knowledge base with pairwise consistent
+actions (`KbCons`: no two rule actions give one field different values — NO restriction on the
+conditions of the rules that are not used in the derivation: And/Or trees, any comparison), any
+initial store compatible with them (`Compat`; any enclosing undo frames), every `max_depth`, every
+`max_solutions`, every order of the top-level candidate list and every sub-goal candidate function
+as long as they offer the rules that assign the wanted value (`Covers`; the code's conclusion
+index and substring heuristic do), every equality goal:
+
+if the goal has a derivation `Deriv` of height `h ≤ max_depth + 1` from the initial facts — a tree
+whose leaves are facts of the initial store (height 0) and whose inner nodes are rules with
+conjunctive equality conditions (literals boolean / Number / String, `reparse b = b`) that assign
+the goal's value — then the query is reported provable.
+
+Height vs. the depth counter of `search_recursive_with_execution`: the query goal is searched at
+`depth = 0`, the condition atoms of its candidate rules at `depth = 1`, …; a rule all of whose
+conditions already hold is executed at the depth of its goal without descending.  A derivation of
+height `h` therefore needs `depth` values `0 … h - 1` only, and `depth > max_depth` never cuts it
+when `h ≤ max_depth + 1` — one more than the property asks for (`dfs_complete_depth_tight`: the
+bound is exact). -/
+theorem dfs_complete (kb : List Rule) (maxDepth maxSol : Nat) (subCands : Atom → List Nat)
+    (goal : Atom) (topCands : List Nat) (st : Store)
+    (hkb : KbCons kb) (hst : Compat kb st.data)
+    (htop : Covers kb topCands goal)
+    (hsub : ∀ r ∈ kb, ∀ b ∈ condAtoms r.cond, Covers kb (subCands b) b)
+    (h : Nat) (hh : h ≤ maxDepth + 1) (hd : Deriv kb st.data h goal) :
+    (query kb .dfs maxDepth maxSol subCands goal topCands st).provable = true := by
+  have hs := searchN_complete ⟨kb, maxSol, subCands⟩ hkb st.data hsub (hd.mono hh) true topCands st 0 htop
+    (Ext.refl _) hst
+  simp only [query, queryG, dfs]
+  cases hs with
+  | inl hs => simp [searchN, hs]
+  | inr hs => exact hs
+
+/-- On such a knowledge base the facts handed back by the DFS (whatever the answer, every
+`max_solutions`) only ADD to the initial facts, with the values the rules assign: no field that
+was present changes or disappears.  (This is the invariant that makes the induction go through:
+failed candidates are rolled back to exactly the saved store — C10 — and successful sub-proofs
+only grow it, so a condition atom proven earlier stays true.) -/
+theorem dfs_facts_grow (kb : List Rule) (maxDepth maxSol : Nat) (subCands : Atom → List Nat)
+    (goal : Atom) (topCands : List Nat) (st : Store) (hkb : KbCons kb) (hst : Compat kb st.data) :
+    Ext st.data (query kb .dfs maxDepth maxSol subCands goal topCands st).store.data ∧
+    Compat kb (query kb .dfs maxDepth maxSol subCands goal topCands st).store.data :=
+  searchN_grow ⟨kb, maxSol, subCands⟩ hkb (maxDepth + 1) true goal topCands (st, 0) hst
+
+/-- The reference computation of runtime oracle (iv) (`derivableIn`, `Spec.lean`) decides exactly
+the existence of a derivation of height ≤ `max_depth + 1`. -/
+theorem derivableIn_iff_deriv (kb : List Rule) (d0 : Data) (maxDepth : Nat) (goal : Atom)
+    (hconj : ∀ r ∈ kb, isConj r.cond = true) (hni : noIntLit kb = true) (hgo : goal.op = .eq) :
+    derivableIn kb d0 maxDepth goal = true ↔ Deriv kb d0 (maxDepth + 1) goal := by
+  have hni' : ∀ r ∈ kb, ∀ b ∈ condAtoms r.cond, reparse b = b := by
+    simpa [noIntLit, List.all_eq_true] using hni
+  constructor
+  · intro h
+    simp only [derivableIn, Bool.or_eq_true] at h
+    cases h with
+    | inl h0 => exact .fact hgo h0
+    | inr hl => exact deriv_of_levels kb d0 hconj hni' (maxDepth + 1) goal hgo hl
+  · intro h
+    simp only [derivableIn, Bool.or_eq_true]
+    exact levels_of_deriv kb d0 h
+
+/-- **Oracle (iv) is a theorem of the model** (every `max_solutions`): consistent-Horn knowledge
+base and initial facts (`isHorn`: conjunctive equality conditions; one value per field across
+all rule actions and the initial facts), no `Integer` literal in a condition (`noIntLit`),
+equality goal, candidate lists that cover: a goal that the reference level computation finds
+derivable within `max_depth` is reported provable. -/
+theorem dfs_complete_oracle (kb : List Rule) (maxDepth maxSol : Nat) (subCands : Atom → List Nat)
+    (goal : Atom) (topCands : List Nat) (before : Facts) (fr : List (Frame (Option Val)))
+    (hhorn : isHorn kb before = true) (hni : noIntLit kb = true) (hgo : goal.op = .eq)
+    (htop : Covers kb topCands goal)
+    (hsub : ∀ r ∈ kb, ∀ b ∈ condAtoms r.cond, Covers kb (subCands b) b)
+    (hder : derivableIn kb (dataOf before) maxDepth goal = true) :
+    (query kb .dfs maxDepth maxSol subCands goal topCands ⟨dataOf before, fr⟩).provable = true := by
+  obtain ⟨hconj, hkb, hst⟩ := isHorn_spec hhorn
+  exact dfs_complete kb maxDepth maxSol subCands goal topCands ⟨dataOf before, fr⟩ hkb hst htop hsub
+    (maxDepth + 1) (Nat.le_refl _)
+    ((derivableIn_iff_deriv kb (dataOf before) maxDepth goal hconj hni hgo).mp hder)
+
+/-- the statement that was kept open as a `def` in the first round -/
 def dfs_complete_full : Prop :=
   ∀ (kb : List Rule) (maxDepth : Nat) (subCands : Atom → List Nat) (goal : Atom) (topCands : List Nat)
     (before : Facts) (fr : List (Frame (Option Val))),
@@ -139,11 +213,108 @@ def dfs_complete_full : Prop :=
     derivableIn kb (dataOf before) maxDepth goal = true →
     (query kb .dfs maxDepth 1 subCands goal topCands ⟨dataOf before, fr⟩).provable = true
 
-/-- **Proved part**: derivations of nesting 0, on ARBITRARY knowledge bases (no Horn restriction):
+theorem dfs_complete_full_holds : dfs_complete_full := by
+  intro kb maxDepth subCands goal topCands before fr hhorn hgo hre htop hsub hder
+  have hni : noIntLit kb = true := by simpa [noIntLit, List.all_eq_true] using hre
+  exact dfs_complete_oracle kb maxDepth 1 subCands goal topCands before fr hhorn hni hgo
+    (covers_of_indices htop) (fun _ _ b _ => covers_of_indices (hsub b)) hder
+
+/-! #### every hypothesis is needed: concrete witnesses (replayed on the real code, which agrees) -/
+
+def wGoal : Atom := ⟨5, .eq, .bool true⟩
+def wBefore : Facts := [(6, .num 1)]
+/-- candidates by assigned field, in rule order (what the substring heuristic yields) -/
+def wSub (kb : List Rule) (a : Atom) : List Nat :=
+  (List.range kb.length).filter fun i => match kb[i]? with
+    | some r => r.acts.any (·.1 == a.field)
+    | none => false
+
+/-- R0: X == 1 ⇒ A := true;  R1: A == true ⇒ G := true -/
+def tightKb : List Rule :=
+  [ ⟨.atom ⟨6, .eq, .num 1⟩, [(0, .bool true)]⟩, ⟨.atom ⟨0, .eq, .bool true⟩, [(5, .bool true)]⟩ ]
+
+/-- **The depth bound is exact**: with every other hypothesis of `dfs_complete_oracle` met, a
+derivation of height `max_depth + 2` (here 2, `max_depth = 0`) is not found. -/
+theorem dfs_complete_depth_tight :
+    isHorn tightKb wBefore = true ∧ noIntLit tightKb = true ∧ Covers tightKb [1] wGoal ∧
+    (∀ r ∈ tightKb, ∀ b ∈ condAtoms r.cond, Covers tightKb (wSub tightKb b) b) ∧
+    derivableIn tightKb (dataOf wBefore) (0 + 1) wGoal = true ∧
+    (query tightKb .dfs 0 1 (wSub tightKb) wGoal [1] ⟨dataOf wBefore, []⟩).provable = false := by
+  decide
+
+/-- R0: X == 1 ⇒ A := Integer 1;  R1: A == Integer 1 ⇒ G := true -/
+def intKb : List Rule :=
+  [ ⟨.atom ⟨6, .eq, .num 1⟩, [(0, .int 1)]⟩, ⟨.atom ⟨0, .eq, .int 1⟩, [(5, .bool true)]⟩ ]
+
+/-- **`noIntLit` is needed** (finding F-C09b): the sub-goal `A == 1` comes back from the pattern
+string as a Number and never matches the Integer the rule assigns. -/
+theorem dfs_complete_needs_noIntLit :
+    isHorn intKb wBefore = true ∧ noIntLit intKb = false ∧ Covers intKb [1] wGoal ∧
+    (∀ r ∈ intKb, ∀ b ∈ condAtoms r.cond, Covers intKb (wSub intKb b) b) ∧
+    derivableIn intKb (dataOf wBefore) 3 wGoal = true ∧
+    (query intKb .dfs 3 1 (wSub intKb) wGoal [1] ⟨dataOf wBefore, []⟩).provable = false := by
+  decide
+
+/-- Ra: X == 1 ⇒ A := true;  Rb: X == 1 ⇒ B := true, A := false;  R: A == true && B == true ⇒ G := true -/
+def clashKb : List Rule :=
+  [ ⟨.atom ⟨6, .eq, .num 1⟩, [(0, .bool true)]⟩,
+    ⟨.atom ⟨6, .eq, .num 1⟩, [(1, .bool true), (0, .bool false)]⟩,
+    ⟨.and (.atom ⟨0, .eq, .bool true⟩) (.atom ⟨1, .eq, .bool true⟩), [(5, .bool true)]⟩ ]
+
+/-- **Consistency of the actions is needed** (finding F-C09e, interference): all conditions are
+conjunctive equality tests, the goal has a (syntactic) derivation of height 2 ≤ `max_depth`, and
+it is true in a forward-reachable store (fire Rb, Ra, R) — but the DFS proves `A`, then proves `B`
+by a rule that also resets `A`, finds the parent rule's condition false and gives up; it neither
+re-proves `A` nor tries the conditions in another order. -/
+theorem dfs_complete_needs_consistency :
+    (∀ r ∈ clashKb, isConj r.cond = true) ∧ noIntLit clashKb = true ∧
+    consistent (allAssignments clashKb wBefore) = false ∧ Covers clashKb [2] wGoal ∧
+    (∀ r ∈ clashKb, ∀ b ∈ condAtoms r.cond, Covers clashKb (wSub clashKb b) b) ∧
+    derivableIn clashKb (dataOf wBefore) 3 wGoal = true ∧
+    (∃ d, Reach clashKb (dataOf wBefore) d ∧ evalAtom d wGoal = true) ∧
+    (query clashKb .dfs 3 1 (wSub clashKb) wGoal [2] ⟨dataOf wBefore, []⟩).provable = false := by
+  refine ⟨by decide, by decide, by decide, by decide, by decide, by decide, ?_, by decide⟩
+  refine ⟨_, .fire (r := clashKb[2]) (.fire (r := clashKb[0]) (.fire (r := clashKb[1]) .refl
+    (by decide) (by decide)) (by decide) (by decide)) (by decide) (by decide), by decide⟩
+
+/-! Non-vacuity of `dfs_complete` / `dfs_complete_oracle`: a consistent-Horn knowledge base with a
+candidate that is tried first and fails after deriving a fact (R1: proves `A`, then the dead end
+`D`), a shared sub-goal (`A`, needed by R2 and by R4), a cycle (R6) tried before the productive
+rule, and a derivation of height 3. -/
+def hornKb : List Rule :=
+  [ ⟨.atom ⟨7, .eq, .num 1⟩, [(3, .bool true)]⟩,                                              -- R0: Y == 1 ⇒ D  (dead end)
+    ⟨.and (.atom ⟨0, .eq, .bool true⟩) (.atom ⟨3, .eq, .bool true⟩), [(5, .bool true)]⟩,      -- R1: A && D ⇒ G
+    ⟨.and (.atom ⟨0, .eq, .bool true⟩) (.atom ⟨1, .eq, .bool true⟩), [(5, .bool true)]⟩,      -- R2: A && B ⇒ G
+    ⟨.atom ⟨6, .eq, .num 1⟩, [(0, .bool true)]⟩,                                              -- R3: X == 1 ⇒ A
+    ⟨.and (.atom ⟨0, .eq, .bool true⟩) (.atom ⟨2, .eq, .bool true⟩), [(1, .bool true)]⟩,      -- R4: A && C ⇒ B
+    ⟨.atom ⟨6, .eq, .num 1⟩, [(2, .bool true)]⟩,                                              -- R5: X == 1 ⇒ C
+    ⟨.atom ⟨5, .eq, .bool true⟩, [(0, .bool true)]⟩ ]                                          -- R6: G ⇒ A  (cycle)
+def hornSub (a : Atom) : List Nat :=
+  if a.field = 0 then [6, 3] else wSub hornKb a
+
+example : (query hornKb .dfs 2 1 hornSub wGoal [1, 2] ⟨dataOf wBefore, []⟩).provable = true :=
+  dfs_complete_oracle hornKb 2 1 hornSub wGoal [1, 2] wBefore [] (by decide) (by decide) rfl (by decide)
+    (by decide) (by decide)
+-- the same with `max_solutions = 3`
+example : (query hornKb .dfs 2 3 hornSub wGoal [1, 2] ⟨dataOf wBefore, []⟩).provable = true :=
+  dfs_complete_oracle hornKb 2 3 hornSub wGoal [1, 2] wBefore [] (by decide) (by decide) rfl (by decide)
+    (by decide) (by decide)
+-- the derivation has height 3: one level less of depth budget and the goal is not found
+example : (query hornKb .dfs 1 1 hornSub wGoal [1, 2] ⟨dataOf wBefore, []⟩).provable = false := by decide
+-- the first candidate (R1) really derived `A` inside its frame before it failed on `D` …
+example : (match candStep ⟨hornKb, 1, hornSub⟩ true (searchN rbCode ⟨hornKb, 1, hornSub⟩ 2 false) wGoal 1 false
+      ⟨dataOf wBefore, []⟩ 0 with
+    | .cont found stX _ => !found && stX.data 0 == some (.bool true) && stX.data 3 == none
+    | .ret _ => false) = true := by decide
+-- … and the facts handed back are the initial ones plus A, B, C, G
+example : (List.range 8).map (query hornKb .dfs 2 1 hornSub wGoal [1, 2] ⟨dataOf wBefore, []⟩).store.data =
+    [some (.bool true), some (.bool true), some (.bool true), none, none, some (.bool true), some (.num 1), none] := by
+  decide
+
+/-- Derivations of nesting 0 on ARBITRARY knowledge bases (no consistency requirement at all):
 if the goal already holds, or some candidate rule whose condition is true in the initial facts
 makes the goal comparison true, the DFS (default `max_solutions = 1`, any `max_depth`, any
-candidate order, whatever the other candidates do before it) reports the goal provable.
-Deeper derivations are covered on the implementation by oracle (iv). -/
+candidate order, whatever the other candidates do before it) reports the goal provable. -/
 theorem dfs_complete_partial (kb : List Rule) (maxDepth : Nat) (subCands : Atom → List Nat)
     (goal : Atom) (topCands : List Nat) (st : Store)
     (h : evalAtom st.data goal = true ∨
